@@ -610,12 +610,37 @@ def h_multi_append_fault(n_old: int, r0: int, b0: int, r1: int, b1: int, nfr: in
         return fs.n <= fail_k
     if fail_k < m or m == len(fs.log):
         touched = [p for k, p in fs.log if p in fs.existing]
-        return touched == [] or all(p in META for p in touched) and fail_k >= m
+        if touched == []:
+            return True
+        if any(p not in META for p in touched):
+            return False          # an existing data file was opened for writing / written
+        # the failed append went on to rewrite the summary: only harmless if what it wrote describes exactly the old
+        # row groups (a fresh open must read back the previous content)
+        ids = _old_ids(n_old)
+        old_tags, old_rows = [90 + i for i in ids], sum(10 + i for i in ids)
+        metas = [s for s in SNAP[0] if s[2] == "d/_metadata"]
+        return all(s[0] == old_tags and s[1] == old_rows for s in metas)
     return True      # fault inside the metadata phase: outside this property's statement
 
 
 def replay_h_multi_append_fault(n_old, r0, b0, r1, b1, nfr, fail_k):
-    """real files, real ParquetFile, fault-injecting open_with/mkdirs wrappers"""
+    """real files, real ParquetFile, fault-injecting open_with/mkdirs wrappers.  The model's call index and the real
+    call sequence differ in how many writes a part file takes, so the real run is repeated with the fault at every
+    call position (the witness's own first) until the append completes without reaching it."""
+    last = (False, "old dataset intact")
+    for k in [fail_k] + [x for x in range(0, 200) if x != fail_k]:
+        ok, info = _append_with_fault(n_old, nfr, k)
+        if ok is None:
+            if k == fail_k:
+                continue
+            break
+        if ok:
+            return True, info + " (fault at filesystem call %d)" % k
+        last = (ok, info)
+    return last
+
+
+def _append_with_fault(n_old, nfr, fail_k):
     import shutil, tempfile
     import pandas as pd
     import fastparquet
@@ -666,22 +691,42 @@ def replay_h_multi_append_fault(n_old, r0, b0, r1, b1, nfr, fail_k):
         try:
             fastparquet.write(dn, new, file_scheme="hive", append=True, open_with=open_with, mkdirs=mkdirs,
                               row_group_offsets=list(range(0, 2 * nfr, 2)))
-            return False, "append completed (fault index not reached)"
+            return None, "append completed (fault index not reached)"
         except OSError:
             pass
+        # only faults before the summary metadata starts being rewritten are in the statement: the summary files
+        # are the last thing a fault-free append writes
         for p, b in before.items():
             if p.startswith("part.") and open(os.path.join(dn, p), "rb").read() != b:
                 return True, "existing data file %s was modified by the failed append" % p
+        meta_touched = any(open(os.path.join(dn, p), "rb").read() != before[p] for p in ("_metadata", "_common_metadata")
+                           if p in before and os.path.exists(os.path.join(dn, p)))
         try:
             out = fastparquet.ParquetFile(dn).to_pandas()
         except Exception as ex:
-            return True, "dataset unreadable after an append that failed at call %d: %s" % (fail_k, ex)
+            if meta_touched and _fault_in_metadata_phase(dn, nfr):
+                return False, "fault inside the metadata phase (outside the statement)"
+            return True, "dataset unreadable after an append that failed: %s" % (ex,)
         if list(out["a"]) != list(df["a"]):
-            return True, "dataset content changed after a failed append"
+            if _fault_in_metadata_phase(dn, nfr):
+                return False, "fault inside the metadata phase (outside the statement)"
+            return True, "dataset content changed after a failed append: %d rows instead of %d" % (len(out), len(df))
         return False, "old dataset intact"
     finally:
         shutil.rmtree(d, ignore_errors=True)
 
+
+def _fault_in_metadata_phase(dn, nfr):
+    """every new part file is complete on disk: the fault came while the summary was being rewritten"""
+    import fastparquet
+    parts = sorted(p for p in os.listdir(dn) if p.startswith("part."))
+    rows = 0
+    for p in parts:
+        try:
+            rows += fastparquet.ParquetFile(os.path.join(dn, p)).count()
+        except Exception:
+            return False
+    return rows == 10 + 2 * nfr
 
 
 # ------------------------------------------------ C18: up-front rejection of an append with other columns ---
